@@ -5,7 +5,6 @@
 package c05
 
 import (
-	"unicode/utf8"
 	"bufio"
 	"encoding/hex"
 	"encoding/json"
@@ -16,6 +15,7 @@ import (
 	"sort"
 	"strings"
 	"time"
+	"unicode/utf8"
 
 	"github.com/honeytrap/honeytrap/event"
 	"github.com/honeytrap/honeytrap/pushers"
@@ -41,10 +41,10 @@ func (prop) Assumptions() []string {
 }
 
 type params struct {
-	Mode   string `json:"mode"` // ctor | file | svc
-	Svc    int    `json:"svc"`
-	Part   int    `json:"part"`
-	N      int    `json:"n"`
+	Mode string `json:"mode"` // ctor | file | svc
+	Svc  int    `json:"svc"`
+	Part int    `json:"part"`
+	N    int    `json:"n"`
 }
 
 func (prop) Plan(tier string, seed int64) []core.Batch {
@@ -67,11 +67,11 @@ func (prop) Plan(tier string, seed int64) []core.Batch {
 }
 
 type ctorObs struct {
-	Cases      int      `json:"cases"`
-	Exhaustive string   `json:"exhaustive"`
-	Mismatches []string `json:"mismatches"`
+	Cases      int            `json:"cases"`
+	Exhaustive string         `json:"exhaustive"`
+	Mismatches []string       `json:"mismatches"`
 	Classes    map[string]int `json:"classes"`
-	Sample     string   `json:"sample"`
+	Sample     string         `json:"sample"`
 }
 
 func (ob *ctorObs) bad(class, f string, a ...interface{}) {
@@ -205,6 +205,49 @@ func optPool(r *core.Rng) []optCase {
 		{"source-ip", ip.String(), event.SourceIP(ip)}, {"destination-ip", ip.String(), event.DestinationIP(ip)},
 		{"source-port", p16, event.SourcePort(p16)}, {"destination-port", p16, event.DestinationPort(p16)},
 		{"message", "m " + a, event.Message("m %s", a)}, {"x.custom", 42, event.Custom("x.custom", 42)}, {"category", "again" + b, event.Category("again" + b)},
+	}
+}
+
+type nullConn struct{ net.Conn }
+
+// checkConnOptions: what a listener or service records on a connection (event.WithConn) must be in the events
+// built from that connection's options - also when several connections are derived from one tagged connection
+// (streams over one transport) and whatever the number of options already recorded.
+func checkConnOptions(ob *ctorObs, r *core.Rng) {
+	ob.Cases++
+	base := r.Range(0, 9)
+	var opts []event.Option
+	want := map[string]interface{}{}
+	for i := 0; i < base; i++ {
+		k := fmt.Sprintf("listener.tag-%d", i)
+		opts = append(opts, event.Custom(k, i))
+		want[k] = i
+	}
+	ip, port := net.IP(r.Bytes(4)), 1+r.Intn(65535)
+	opts = append(opts, event.SourceAddr(&net.TCPAddr{IP: ip, Port: port}))
+	want["source-ip"], want["source-port"] = ip.String(), port
+	c0 := event.WithConn(nullConn{}, opts...)
+	sn := "sni-" + r.Alnum(5)
+	c1 := event.WithConn(c0, event.Custom("https.server-name", sn))
+	want["https.server-name"] = sn
+	nsib := r.Range(1, 3)
+	var sibs []*event.Conn
+	var ids []string
+	for i := 0; i < nsib; i++ {
+		id := fmt.Sprintf("stream-%d-%s", i, r.Alnum(4))
+		ids = append(ids, id)
+		sibs = append(sibs, event.WithConn(c1, event.Custom(fmt.Sprintf("stream-%d.id", i), id)))
+	}
+	for i, sc := range sibs {
+		m := event.ToMap(event.New(sc.Options(), event.Category("conn-options")))
+		for k, v := range want {
+			if fmt.Sprint(m[k]) != fmt.Sprint(v) {
+				ob.bad("conn-options", "connection %d of %d derived from one tagged connection (%d base options): key %q = %v in its events, %v was recorded on the connection", i, nsib, base, k, m[k], v)
+			}
+		}
+		if k := fmt.Sprintf("stream-%d.id", i); m[k] != ids[i] {
+			ob.bad("conn-options", "connection %d of %d derived from one tagged connection (%d base options): its own key %q = %v in its events, recorded %q", i, nsib, base, k, m[k], ids[i])
+		}
 	}
 }
 
@@ -343,6 +386,7 @@ func childCtor(b core.Batch, p params, o *core.Obs) {
 		}
 		checkPayload(&ob, data)
 		checkOptions(&ob, r)
+		checkConnOptions(&ob, r)
 		if i%50 == 0 {
 			checkAddrs(&ob, r)
 		}
@@ -436,21 +480,21 @@ func childFile(b core.Batch, p params, o *core.Obs) {
 }
 
 type evCheck struct {
-	Cat     string   `json:"cat"`
-	Typ     string   `json:"typ"`
-	Keys    int      `json:"keys"`
-	Problem string   `json:"problem,omitempty"`
-	Class   string   `json:"class,omitempty"`
-	Hash    string   `json:"hash"`
+	Cat     string `json:"cat"`
+	Typ     string `json:"typ"`
+	Keys    int    `json:"keys"`
+	Problem string `json:"problem,omitempty"`
+	Class   string `json:"class,omitempty"`
+	Hash    string `json:"hash"`
 }
 
 type svcObs struct {
-	Events   int            `json:"events"`
-	Scen     int            `json:"scenarios"`
-	Problems []evCheck      `json:"problems"`
-	Classes  map[string]int `json:"classes"`
-	Cats     map[string]int `json:"cats"`
-	Distinct int            `json:"distinct"`
+	Events   int               `json:"events"`
+	Scen     int               `json:"scenarios"`
+	Problems []evCheck         `json:"problems"`
+	Classes  map[string]int    `json:"classes"`
+	Cats     map[string]int    `json:"cats"`
+	Distinct int               `json:"distinct"`
 	Sample   map[string]string `json:"sample"`
 }
 
